@@ -198,6 +198,15 @@ pub fn check_item(c: &DCase, ctx: &mut Ctx) -> Result<(), Failure> {
     if !(back == item) || bits(&back) != bits(&item) {
         ctx.fail("C06:DataItem:roundtrip_differs".into(), format!("DataItem {:?} round-trips to {:?}", item, back))?;
     }
+    // second format: serde_json (finite fields only — JSON has no NaN/inf)
+    if bits(&item).iter().all(|b| f64::from_bits(*b).is_finite()) {
+        let text = serde_json::to_string(&item).map_err(|e| Failure { signature: "C06:DataItem:serde_error".into(), detail: e.to_string() })?;
+        let back: DataItem = serde_json::from_str(&text).map_err(|e| Failure { signature: "C06:DataItem:serde_error".into(), detail: format!("{}: {}", text, e) })?;
+        if !(back == item) || bits(&back) != bits(&item) {
+            ctx.fail("C06:DataItem:roundtrip_differs".into(), format!("DataItem {:?} round-trips through serde_json to {:?}", item, back))?;
+        }
+        ctx.label("dataitem_json_roundtrips");
+    }
     let mut fp = Fp::new("C06D");
     for b in bits(&item) {
         fp.u(b);
